@@ -21,7 +21,7 @@ func c02Scenarios() []scOpt {
 	n2, n3 := []string{"n1", "n2"}, []string{"n1", "n2", "n3"}
 	b := 1
 	var scs []scOpt
-	scs = append(scs, corpusS1(b, &w.Alpha{PodDev: []string{"fail", "unknown"}, AddNodes: []string{"n9"}, DelNodes: true, Taints: []string{"NoExecute"}}))
+	scs = append(scs, corpusS1(b, &w.Alpha{PodDev: []string{"fail", "unknown"}, AddNodes: []string{"n9"}, DelNodes: true, Taints: []string{"NoExecute", "cordon"}}))
 	scs = append(scs, corpusS2(n2, "1", b, rolloutDev()))
 	s := corpusS2(n3, "50%", 0, rolloutDev())
 	s.eds = append(s.eds, w.WithRolling("50%", "50%", 1, 0))
@@ -47,9 +47,14 @@ func c02Scenarios() []scOpt {
 	s7.extra = []client.Object{set}
 	s7.nodeAnnots = map[string]map[string]string{"n1": {"resources.extendeddaemonset.datadoghq.com/ns.foo.main": `{"requests":{"cpu":"200m"}}`}}
 	scs = append(scs, s7)
+	// S3e: the user edits the canary block while the canary runs (removes it / asks for more or fewer replicas)
+	s3e := corpusS3(n3, "1", "auto", b, &w.Alpha{SpecEdits: []string{"drop-canary", "canary-replicas=2", "canary-replicas=1"}})
+	s3e.name = "S3-canary-spec-edits"
+	scs = append(scs, s3e)
 	if h.Thorough() {
 		scs[1] = corpusS2(n3, "1", 2, rolloutDev())
 		scs[4] = corpusS3(n3, "1", "auto", 2, canaryDev())
+		scs[len(scs)-1].budget = 2
 		scs = append(scs, corpusS3([]string{"n1", "n2", "n3", "n4"}, "2", "auto", 1, canaryDev()))
 	}
 	return scs
@@ -65,7 +70,7 @@ func TestC02(t *testing.T) {
 	var starts []start
 	every := 1
 	if !h.Thorough() {
-		every = 3
+		every = 4
 	}
 	flush := func() {
 		batch := starts
